@@ -148,6 +148,10 @@ impl Execution {
 
         init_panic_hook(config.clone());
         CurrentSchedule::init(self.initial_schedule.clone());
+        // Labels and tags are keyed by task id and normally cleared by `cleanup`; an earlier execution on
+        // this thread that failed never got there, so start from a clean slate.
+        TASK_ID_TO_TAGS.with(|cell| cell.borrow_mut().clear());
+        LABELS.with(|cell| cell.borrow_mut().clear());
         UNGRACEFUL_SHUTDOWN_CONFIG.set(config.ungraceful_shutdown_config);
 
         EXECUTION_STATE.set(&state, move || {
